@@ -192,3 +192,127 @@ Proof.
 Qed.
 
 End WithHash.
+
+Section PackedAndBits.
+Variable H : bytes -> bytes -> bytes.
+Variable src : bytes -> option (bytes * bytes).
+Notation getter := (getter src).
+Notation advance := (advance src).
+Notation stack_inv := (stack_inv src).
+Notation advance_step := (advance_step src).
+
+(* PackedIter: what indexing reads at positions p, p+1, ... *)
+Fixpoint preads (anchor : node) (d : nat) (e : ty) (per : N) (p : N) (k : nat) : result (list bytes) :=
+  match k with
+  | O => Ok []
+  | S k' =>
+      do c <- getter anchor (be_bits d (p / per));
+      if negb (is_leaf src c) then Err EOther
+      else do b <- packed_elem_bytes H e c (p mod per);
+           do rest <- preads anchor d e per (p + 1) k';
+           Ok (b :: rest)
+  end.
+
+Lemma packed_iter_loop_spec anchor d e per : 1 <= per -> forall k p j r cur stack bs,
+  j <= per -> r * per + j = p + per -> N.of_nat k + p <= 2 ^ N.of_nat d * per ->
+  preads anchor d e per p k = Ok bs ->
+  (j < per -> getter anchor (be_bits d (r - 1)) = Ok cur) ->
+  (r = 0 -> length stack = d) -> (1 <= r -> stack_inv anchor d (r - 1) stack) ->
+  packed_iter_loop H src k anchor d e per j r cur stack = Ok bs.
+Proof.
+  intros Hper. induction k as [|k IH]; intros p j r cur stack bs Hj Hpos Hb Hr Hcur H0 Hinv; cbn [preads] in Hr.
+  - inversion Hr. reflexivity.
+  - destruct (getter anchor (be_bits d (p / per))) as [c|] eqn:Hg; [|discriminate]. cbn [bind] in Hr.
+    destruct (negb (is_leaf src c)) eqn:Hleaf; [discriminate|].
+    destruct (packed_elem_bytes H e c (p mod per)) as [b|] eqn:Hb0; [|discriminate]. cbn [bind] in Hr.
+    destruct (preads anchor d e per (p + 1) k) as [rest|] eqn:Hrest; [|discriminate]. cbn [bind] in Hr. inversion Hr; subst bs. clear Hr.
+    cbn [packed_iter_loop]. destruct (j <? per) eqn:Ejp.
+    + apply N.ltb_lt in Ejp.
+      assert (p / per = r - 1 /\ p mod per = j) as [Ediv Emod].
+      { assert (1 <= r) as Hr1 by (destruct (N.eq_dec r 0) as [->|]; lia).
+        assert (r = (r - 1) + 1) as Er by lia. assert (p = (r - 1) * per + j) as Ep by (rewrite Er in Hpos; nia). split; [symmetry; apply (N.div_unique p per (r - 1) j); lia|symmetry; apply (N.mod_unique p per (r - 1) j); lia]. }
+      rewrite Ediv in Hg. rewrite (Hcur Ejp) in Hg. inversion Hg; subst c. rewrite Emod in Hb0. rewrite Hb0. cbn [bind].
+      rewrite (IH (p + 1) (j + 1) r cur stack rest); [reflexivity|lia|lia|lia|exact Hrest|intros _; apply Hcur; lia|exact H0|exact Hinv].
+    + apply N.ltb_ge in Ejp. assert (j = per) as -> by lia.
+      assert (p / per = r /\ p mod per = 0) as [Ediv Emod].
+      { assert (p = r * per + 0) as Ep by lia. split; [symmetry; apply (N.div_unique p per r 0); lia|symmetry; apply (N.mod_unique p per r 0); lia]. }
+      rewrite Ediv in Hg. rewrite Emod in Hb0.
+      assert (r < 2 ^ N.of_nat d) as Hrd by nia.
+      destruct (advance_step anchor d r stack c Hrd Hg H0 Hinv) as (st & Ha & Hi').
+      rewrite Ha. cbn [bind fst snd]. rewrite Hleaf, Hb0. cbn [bind].
+      rewrite (IH (p + 1) 1 (r + 1) c st rest); [reflexivity|lia|lia|lia|exact Hrest| | |].
+      * intros _. replace (r + 1 - 1) with r by lia. exact Hg.
+      * intros; lia.
+      * intros _. replace (r + 1 - 1) with r by lia. exact Hi'.
+Qed.
+
+Theorem packed_iter_agrees anchor d (k : N) e size bs : 1 <= 32 / size -> k <= 2 ^ N.of_nat d * (32 / size) ->
+  preads anchor d e (32 / size) 0 (N.to_nat k) = Ok bs ->
+  packed_iter H src anchor d k e size = Ok bs.
+Proof.
+  intros Hper Hk Hr. unfold packed_iter. rewrite N.shiftl_1_l.
+  destruct (2 ^ N.of_nat d * (32 / size) <? k) eqn:E; [apply N.ltb_lt in E; lia|].
+  apply (packed_iter_loop_spec anchor d e (32 / size) Hper (N.to_nat k) 0); try lia; try exact Hr.
+  intros _. apply repeat_length.
+Qed.
+(* BitfieldIter: what indexing reads at bit positions p, p+1, ... *)
+Fixpoint breads (anchor : node) (d : nat) (p : N) (k : nat) : result (list bool) :=
+  match k with
+  | O => Ok []
+  | S k' =>
+      do c <- getter anchor (be_bits d (p / 256));
+      if negb (is_leaf src c) then Err EOther
+      else do rest <- breads anchor d (p + 1) k';
+           Ok (bit_of (root H c) (p mod 256) :: rest)
+  end.
+
+Lemma bit_iter_loop_spec anchor d : forall k p j r cur stack bs,
+  j < 256 -> p + (if j =? 0 then 0 else 256) = r * 256 + j -> N.of_nat k + p <= 2 ^ N.of_nat d * 256 ->
+  breads anchor d p k = Ok bs ->
+  (0 < j -> exists c, getter anchor (be_bits d (r - 1)) = Ok c /\ cur = root H c) ->
+  (r = 0 -> length stack = d) -> (1 <= r -> stack_inv anchor d (r - 1) stack) ->
+  bit_iter_loop H src k anchor d j r cur stack = Ok bs.
+Proof.
+  induction k as [|k IH]; intros p j r cur stack bs Hj Hpos Hb Hr Hcur H0 Hinv; cbn [breads] in Hr.
+  - inversion Hr. reflexivity.
+  - destruct (getter anchor (be_bits d (p / 256))) as [c|] eqn:Hg; [|discriminate]. cbn [bind] in Hr.
+    destruct (negb (is_leaf src c)) eqn:Hleaf; [discriminate|].
+    destruct (breads anchor d (p + 1) k) as [rest|] eqn:Hrest; [|discriminate]. cbn [bind] in Hr. inversion Hr; subst bs. clear Hr.
+    cbn [bit_iter_loop]. destruct (0 <? j) eqn:Ej.
+    + apply N.ltb_lt in Ej. assert ((j =? 0) = false) as Ej0 by (apply N.eqb_neq; lia). rewrite Ej0 in Hpos.
+      assert (1 <= r) as Hr1 by (destruct (N.eq_dec r 0) as [->|]; lia).
+      assert (p = (r - 1) * 256 + j) as Ep by lia.
+      assert (p / 256 = r - 1 /\ p mod 256 = j) as [Ediv Emod].
+      { split; [symmetry; apply (N.div_unique p 256 (r - 1) j); lia|symmetry; apply (N.mod_unique p 256 (r - 1) j); lia]. }
+      destruct (Hcur Ej) as (c0 & Hc0 & ->). rewrite Ediv in Hg. rewrite Hc0 in Hg. inversion Hg; subst c0. rewrite Emod.
+      destruct (255 <? j + 1) eqn:E255.
+      * apply N.ltb_lt in E255. assert (j = 255) as -> by lia.
+        rewrite (IH (p + 1) 0 r (root H c) stack rest); [reflexivity|lia|cbn [N.eqb]; lia|lia|exact Hrest|lia|exact H0|exact Hinv].
+      * apply N.ltb_ge in E255.
+        rewrite (IH (p + 1) (j + 1) r (root H c) stack rest); [reflexivity|lia| |lia|exact Hrest| |exact H0|exact Hinv].
+        -- assert ((j + 1 =? 0) = false) as -> by (apply N.eqb_neq; lia). lia.
+        -- intros _. exists c. auto.
+    + apply N.ltb_ge in Ej. assert (j = 0) as -> by lia. cbn [N.eqb] in Hpos.
+      assert (p / 256 = r /\ p mod 256 = 0) as [Ediv Emod].
+      { split; [symmetry; apply (N.div_unique p 256 r 0); lia|symmetry; apply (N.mod_unique p 256 r 0); lia]. }
+      rewrite Ediv in Hg. rewrite Emod.
+      assert (r < 2 ^ N.of_nat d) as Hrd by nia.
+      destruct (advance_step anchor d r stack c Hrd Hg H0 Hinv) as (st & Ha & Hi').
+      rewrite Ha. cbn [bind fst snd]. rewrite Hleaf.
+      rewrite (IH (p + 1) 1 (r + 1) (root H c) st rest); [reflexivity|lia|cbn [N.eqb]; lia|lia|exact Hrest| | |].
+      * intros _. exists c. replace (r + 1 - 1) with r by lia. auto.
+      * intros; lia.
+      * intros _. replace (r + 1 - 1) with r by lia. exact Hi'.
+Qed.
+
+Theorem bit_iter_agrees anchor d (k : N) bs : k <= 2 ^ N.of_nat d * 256 ->
+  breads anchor d 0 (N.to_nat k) = Ok bs -> bit_iter H src anchor d k = Ok bs.
+Proof.
+  intros Hk Hr. unfold bit_iter. rewrite N.shiftl_1_l, N.shiftl_mul_pow2. change (2 ^ 8) with 256.
+  destruct (2 ^ N.of_nat d * 256 <? k) eqn:E; [apply N.ltb_lt in E; lia|].
+  apply (bit_iter_loop_spec anchor d (N.to_nat k) 0); try lia; try exact Hr.
+  - reflexivity.
+  - intros _. apply repeat_length.
+Qed.
+
+End PackedAndBits.
